@@ -34,7 +34,7 @@ def run_kani(pid, tier, records, info):
     write(os.path.join(CACHE, "logs", f"{pid}-kani.log"), raw)
     for h in hs:
         r = res[h.full]
-        rec = {"name": h.obligation(pid), "instance": h.size or "-", "backend": "kani_harness_complete", "harness": h.full,
+        rec = {"name": h.obligation(pid), "instance": h.size or "-", "backend": "kani_contract" if getattr(h, "contract", False) else "kani_harness_complete", "harness": h.full,
                "time_s": r["time_s"], "solver_checks": r["checks"], "covers": list(r["covers"]), "asserts": h.asserts, "_h": h, "_r": r}
         if r["status"] == "success":
             if r["covers"][0] < r["covers"][1]:
